@@ -290,7 +290,7 @@ func init() {
 					short = fmt.Sprintf("status=%d", v.Resp.Status)
 				}
 				s.Violate(engine.Violation{Sig: "C04/" + clause + "/" + e.Class + "/" + short, Clause: clause, Index: v.Index, Kind: "C01",
-					Case: fsCase{State: v.State, Req: v.Req}, Expected: fmt.Sprintf("status %s (%s); tree %s", e.want(), strings.Join(e.Reasons, "; "), e.Next.Canon()),
+					Case: fsCase{State: v.State, Req: v.Req, Spell: v.Spell}, Expected: fmt.Sprintf("status %s (%s); tree %s", e.want(), strings.Join(e.Reasons, "; "), e.Next.Canon()),
 					Observed: fmt.Sprintf("status %d; tree %s; %s", v.Resp.Status, v.After.Canon(), detail)})
 			}
 		})
